@@ -295,6 +295,8 @@ class Prop(PropBase):
                 s["nsamp"] = s["spf"] * rng.choice([4, 5, 8])
             elif fmt == "dada":
                 s.update(complex=rng.random() < 0.5, a=rng.choice([1, 2]), b=rng.choice([1, 2, 4]), spf=rng.choice([16, 32, 50]))
+                if not s["complex"] and s["a"] * s["b"] == 1 and s["spf"] % 8:
+                    s["spf"] = 32          # baseband cannot encode a real one-stream DADA frame whose byte count is not a multiple of 8
                 s["nsamp"] = s["spf"] * rng.choice([1, 1, 2, 3])
             elif fmt == "guppi":
                 s.update(b=rng.choice([2, 4, 8]), a=2, spf=rng.choice([16, 32]), fpf=rng.choice([1, 2]), lsb=rng.random() < 0.5,
